@@ -85,6 +85,32 @@ func ruleRollbackTx(r *Report, rule string) {
 	sl := d.SliceOfExpr(del.Args[0])
 	okKey := sliceHasSuffix(sl, ".encodeUvarintAscending")
 	r.Ob(rule, fi.Name+"/deletes-the-visited-epoch", del.Pos(), okKey, "the bucket key deleted is the encoded epoch being visited")
+	// the "target epoch seen" flag by role: a bool variable set to true under a comparison with the rollback point's epoch
+	targetSeenFlags := map[types.Object]bool{}
+	ast.Inspect(fi.Decl.Body, func(x ast.Node) bool {
+		is, ok := x.(*ast.IfStmt)
+		if !ok {
+			return true
+		}
+		cmpEpoch := false
+		ast.Inspect(is.Cond, func(y ast.Node) bool {
+			if sel, ok := y.(*ast.SelectorExpr); ok && isField(info, sel, "RollbackPoint", "epoch") {
+				cmpEpoch = true
+			}
+			return true
+		})
+		if !cmpEpoch {
+			return true
+		}
+		for _, st := range is.Body.List {
+			if as, ok := st.(*ast.AssignStmt); ok && len(as.Lhs) == 1 && len(as.Rhs) == 1 && exprStr(as.Rhs[0]) == "true" {
+				if o := objOf(info, as.Lhs[0]); o != nil {
+					targetSeenFlags[o] = true
+				}
+			}
+		}
+		return true
+	})
 	// candidates: newest first, stop after the target
 	okScan := false
 	ast.Inspect(fi.Decl.Body, func(x ast.Node) bool {
@@ -94,7 +120,14 @@ func ruleRollbackTx(r *Report, rule string) {
 		}
 		ini := exprStr(fs.Init.(*ast.AssignStmt).Rhs[0])
 		post := exprStr(fs.Post.(*ast.AssignStmt).Rhs[0])
-		if strings.Contains(ini, ".Last()") && strings.Contains(post, ".Prev()") && strings.Contains(exprStr(fs.Cond), "!found") {
+		condMentionsFlag := false
+		ast.Inspect(fs.Cond, func(y ast.Node) bool {
+			if u, ok := y.(*ast.UnaryExpr); ok && u.Op == token.NOT && targetSeenFlags[objOf(info, u.X)] {
+				condMentionsFlag = true
+			}
+			return true
+		})
+		if strings.Contains(ini, ".Last()") && strings.Contains(post, ".Prev()") && condMentionsFlag {
 			// found set when epoch == target, and the epoch appended unconditionally afterwards
 			okScan = true
 		}
@@ -105,7 +138,7 @@ func ruleRollbackTx(r *Report, rule string) {
 	okFound := false
 	for _, rs := range returnsOf(fi.Decl.Body) {
 		for _, f := range g.GuardsOf(rs) {
-			if id, ok := ast.Unparen(f.Expr).(*ast.Ident); ok && !f.Truth && id.Name == "found" && !successReturn(info, g, fi, rs) {
+			if id, ok := ast.Unparen(f.Expr).(*ast.Ident); ok && !f.Truth && targetSeenFlags[info.ObjectOf(id)] && !successReturn(info, g, fi, rs) {
 				okFound = g.DominatesNode(rs, begin) || !g.ReachesNode(begin, rs)
 			}
 		}
